@@ -131,6 +131,33 @@ case("c13_unsized_param", "C13", "R13.5", "pass", """
 #[derive(TypeInfo)] enum UE<T: ?Sized> { A(Box<T>), B }
 fn main() { assert_type_info::<U<str>>(); assert_type_info::<W<[u8]>>(); assert_type_info::<UE<str>>(); assert_type_info::<U<u8>>(); }
 """, about="a non-skipped ?Sized parameter: the generated type_params / where clause must accept the unsized instantiation")
+case("c13_skipped_param_only_in_skipped_members", "C13", "R13.5", "pass", """
+#[derive(Default)] struct Plain;
+#[derive(TypeInfo)] #[scale_info(skip_type_params(Cache))] struct Store<Cache> { entries: Vec<u32>, #[codec(skip)] cache: Cache }
+#[derive(TypeInfo)] #[scale_info(skip_type_params(Dbg))] enum Event<Dbg> { Started(u64), #[codec(skip)] Trace(Dbg), Stopped { code: u8, #[codec(skip)] why: Option<Dbg> } }
+#[derive(TypeInfo)] #[scale_info(skip_type_params(H))] struct Chain<H: Default, const N: usize> where H: Sized { depth: [u8; N], parent: Option<Box<Chain<H, N>>>, #[codec(skip)] hooks: H }
+fn main() { assert_type_info::<Store<Plain>>(); assert_type_info::<Event<Plain>>(); assert_type_info::<Chain<Plain, 3>>(); }
+""", about="a skipped type parameter that occurs only in skipped / self-referential members still gets `'static` (Identity = Self needs it)")
+case("c13_skipped_param_as_member_type", "C13", "R13.5", "pass", """
+trait Origin { type Id; }
+impl Origin for u16 { type Id = u64; }
+#[derive(TypeInfo)] #[scale_info(skip_type_params(Call))] struct Scheduled<Call> { priority: u8, call: Call }
+#[derive(TypeInfo)] #[scale_info(skip_type_params(Err))] enum Outcome<T, Err> { Done(T), Failed { error: Err, retries: u32 } }
+#[derive(TypeInfo)] #[scale_info(skip_type_params(O))] struct Signed<O: Origin = u16>(O, O::Id) where O: Copy;
+fn main() { assert_type_info::<Scheduled<Vec<u8>>>(); assert_type_info::<Outcome<u8, bool>>(); assert_type_info::<Signed<u16>>(); }
+""", about="a skipped parameter used directly as the type of an encoded member: the member's own type still gets its TypeInfo bound")
+# ------------------------------------------------------------------------------- C18: replacement segments are judged by the library's identifier rule
+case("c18_replace_with_keywords", "C18", "R18.5", "pass", """
+mod inner {
+    use super::*;
+    #[derive(TypeInfo)] #[scale_info(replace_segment("inner", "type"))] pub struct A;
+    #[derive(TypeInfo)] #[scale_info(replace_segment("inner", "crate"))] pub struct B;
+    #[derive(TypeInfo)] #[scale_info(replace_segment("inner", "Self"))] pub struct C;
+    #[derive(TypeInfo)] #[scale_info(replace_segment("inner", "_"))] pub struct D;
+    #[derive(TypeInfo)] #[scale_info(replace_segment("inner", "r#type"))] pub struct E;
+}
+fn main() { assert_type_info::<inner::A>(); assert_type_info::<inner::B>(); assert_type_info::<inner::C>(); assert_type_info::<inner::D>(); assert_type_info::<inner::E>(); }
+""", about="a replace_segment replacement is any string the library accepts as a path segment (keywords and `_` included): the derive must not apply a stricter grammar")
 # ------------------------------------------------------------------------------- C04: every built-in keeps its type info
 case("c04_unsized_pointees", "C04", "R4.5", "pass", """
 extern crate alloc;
